@@ -376,8 +376,18 @@ class Fn:
             if ad is None and self.touches(a):
                 return None
         out = []
+        def mpi_handle(a, text, declpat, mpich_const):
+            # a predefined MPI handle: by source text, by the Open MPI object it expands to, or by
+            # its MPICH integer value (inside macro bodies the source text is the macro invocation)
+            if re.sub(r'\s', '', self.tu.src(a)) == text:
+                return True
+            if const_val(a) == mpich_const:
+                return True
+            return any(m.get('kind') == 'DeclRefExpr' and re.fullmatch(declpat, m['referencedDecl'].get('name', ''))
+                       for m in walk(a))
         if nm == 'MPI_Allreduce' and len(args) >= 5 and addrs[0] and addrs[1] and \
-           re.sub(r'\s', '', self.tu.src(args[4])) == 'MPI_MIN' and re.sub(r'\s', '', self.tu.src(args[3])) == 'MPI_INT':
+           mpi_handle(args[4], 'MPI_MIN', r'ompi_mpi_op_min', 0x58000002) and \
+           mpi_handle(args[3], 'MPI_INT', r'ompi_mpi_int', 0x4c000405):
             out.append('SAllMin %s %s' % (q(addrs[0]), q(addrs[1])))
         elif nm == 'MPI_Bcast' and len(args) >= 4 and addrs[0] and const_val(args[3]) == 0:
             out.append('SBcast0 %s' % q(addrs[0]))
@@ -406,6 +416,12 @@ class Fn:
             if inner is None:
                 return None
             return self.seq([inner, 'SAssign %s (EVar %s)' % (q(v), q(self.tv(kids(r)[0])))])
+        elif r.get('kind') == 'ConditionalOperator':
+            cc, a, b = kids(r)
+            C, A, B = self.cond(cc), self.assign(v, a), self.assign(v, b)
+            if C is None or A is None or B is None:
+                return None
+            return 'SIf (%s) (%s) (%s)' % (C, A, B)
         else:
             e = self.expr(rhs)
             if e is None:
@@ -467,6 +483,12 @@ class Fn:
                 eff = self.call_effects(r)
                 if eff is None:
                     return self.unrec(n, 'return')
+            if r.get('kind') == 'ConditionalOperator':
+                # return c ? a : b   ==>   if (c) return a; else return b;   (keeps the outcomes apart)
+                cc, a, b = kids(r)
+                C, A, B = self.cond(cc), self.expr(a), self.expr(b)
+                if C is not None and A is not None and B is not None:
+                    return 'SIf (%s) (SRet (%s)) (SRet (%s))' % (C, A, B)
             e = self.expr(kids(n)[0])
             if e is None:
                 return self.unrec(n, 'return')
@@ -1108,6 +1130,7 @@ def main():
     o.append('')
     with open(out, 'w') as f:
         f.write('\n'.join(o) + '\n')
+    jout = jout or os.environ.get('C11_SITES_JSON')
     if jout:
         with open(jout, 'w') as f:
             json.dump(dict(sites=sites, driver_table=driver_table, problems=problems,
